@@ -1819,6 +1819,13 @@ func (e *Engine) convert(s *State, x *ssa.Convert, v Value) Value {
 	if tb, ok := to.(*types.Basic); ok && tb.Kind() == types.UnsafePointer {
 		return v
 	}
+	if fb, ok := from.(*types.Basic); ok && fb.Kind() == types.UnsafePointer {
+		if tb, ok := to.(*types.Basic); ok && tb.Kind() == types.Uintptr {
+			// the numeric value of an address: arbitrary (where the allocator put the object), so alignment tests
+			// on it go both ways
+			return e.freshVar("addr", 64)
+		}
+	}
 	fw, fs, ok1 := width(from)
 	tw, _, ok2 := width(to)
 	if ok1 && ok2 {
